@@ -141,7 +141,7 @@ pub fn run_gen(bin: &str, flags: &[String], input: &[u8], takes_input: bool, mod
     let mode = if !takes_input && mode == 1 { 0 } else { mode };
     let mut out_file: Option<PathBuf> = None;
     if takes_input && mode >= 1 {
-        args.push(scratch_file("generator input.txt", input).display().to_string());
+        args.push(scratch_file("generator \"in\" put.txt", input).display().to_string());
     }
     if mode == 2 {
         let stale = format!("\"stale text of an earlier, larger instance\"\n{}\ntrue\n", "stale_variable_of_an_earlier_run &\n".repeat(20000));
